@@ -242,6 +242,18 @@ func (c *Decoder) decodeSubroutineDeclaration() (*ast.SubroutineDeclaration, err
 	if sub.Name, err = c.decodeIdent(c.nextFrame()); err != nil {
 		return nil, errors.WithStack(err)
 	}
+	// Parameters are (type, name) ident pairs
+	for c.peekFrameIs(SUBROUTINE_PARAMETER) {
+		c.nextFrame() // point to SUBROUTINE_PARAMETER frame
+		param := &ast.SubroutineParameter{}
+		if param.Type, err = c.decodeIdent(c.nextFrame()); err != nil {
+			return nil, errors.WithStack(err)
+		}
+		if param.Name, err = c.decodeIdent(c.nextFrame()); err != nil {
+			return nil, errors.WithStack(err)
+		}
+		sub.Parameters = append(sub.Parameters, param)
+	}
 	// Functional subroutine has return type ident
 	if c.peekFrameIs(IDENT_VALUE) {
 		if sub.ReturnType, err = c.decodeIdent(c.nextFrame()); err != nil {
